@@ -303,7 +303,9 @@ fn read_res(res: Result<dicom_object::DefaultDicomObject, dicom_object::ReadErro
 
 fn main() {
     let a = parse_args();
-    quiet_panics();
+    if std::env::var("VERIF_LOUD").is_err() {
+        quiet_panics();
+    }
     let mut out = Out::new();
     let work = std::env::var("VERIF_WORK").unwrap_or_else(|_| "/verif/.work".into());
     let dir = std::path::PathBuf::from(work).join(format!("c09-files-{}", std::process::id()));
@@ -358,8 +360,8 @@ fn main() {
             let ambiguous = r.chance(1, 30);
             if ambiguous {
                 let base = FileMetaTableBuilder::new()
-                    .media_storage_sop_class_uid("1.2.840.10008.5.1.4.1.1.7")
-                    .media_storage_sop_instance_uid("1.2.3.4.5.6.7.8")
+                    .media_storage_sop_class_uid("1.2.3")
+                    .media_storage_sop_instance_uid("1.2")
                     .transfer_syntax(t.transfer_syntax.clone())
                     .implementation_class_uid("1.2.3.4")
                     .implementation_version_name("X")
